@@ -103,10 +103,25 @@ for large in (False, True):
                   'nothing' % ('Large' if large else 'Small'), outside='TCP itself')
 
 
+ESTABLISHED = {}
+
+
+def established(large):
+    """a Register + Forward Open performed ONCE, concretely (their symbolic treatment is forward_open_*); the connected obligations
+    then send one request each over the established connection"""
+    if large not in ESTABLISHED:
+        sess, proceed, r = open_session(large)
+        assert proceed and r['status'] == 0
+        ESTABLISHED[large] = (sess, ref.un_le(r['data'][0:4]), dict(ucmm.UCMM.sessions), dict(device.Connection_Manager.forwards))
+    sess, o_t, sessions, forwards = ESTABLISHED[large]
+    ucmm.UCMM.sessions = dict(sessions)
+    device.Connection_Manager.forwards = dict(forwards)
+    return sess, o_t
+
+
 def do_connected_read(large, seq, a, i, n):
     sim.attribute('A').value[:] = a
-    sess, proceed, r = open_session(large)
-    o_t = ref.un_le(r['data'][0:4])
+    sess, o_t = established(large)
     proceed, rpy = talk(unit(sess, o_t, seq, ref.read_tag([{'symbolic': 'A'}, {'element': i}], n)))
     r = un_unit(rpy, sess, o_t, seq)
     valid = n >= 1 and i + n <= N
@@ -118,8 +133,7 @@ def do_connected_read(large, seq, a, i, n):
 
 def do_connected_write(large, seq, a, i, v):
     sim.attribute('A').value[:] = a
-    sess, proceed, r = open_session(large)
-    o_t = ref.un_le(r['data'][0:4])
+    sess, o_t = established(large)
     proceed, rpy = talk(unit(sess, o_t, seq, ref.write_tag([{'symbolic': 'A'}, {'element': i}], 0xc3, [v])))
     r = un_unit(rpy, sess, o_t, seq)
     after = list(a)
@@ -135,6 +149,8 @@ def do_connected_write(large, seq, a, i, v):
     return ok and proceed and r['status'] != 0 and r['service'] == 0xcc
 
 
+established(False)
+established(True)
 AV = ['a%d' % k for k in range(N)]
 APRE = " and ".join('-32768 <= %s <= 32767' % x for x in AV)
 for large in (False, True):
